@@ -35,6 +35,9 @@ def expand(symbols):
         elif form == 'extfar':
             pre.append(S.M('n%d' % i, sym[2]))
             members.append(S.M('f%d' % i, sym[1], S.EXT, 'n%d' % i))
+        elif form == 'extsplit':
+            # sizer, then an unrelated dynamic array, then the array it sizes: sizer and array live in different parts
+            members += [S.M('n%d' % i, sym[2]), S.M('w%d' % i, 'u8', S.DYNAMIC), S.M('f%d' % i, sym[1], S.EXT, 'n%d' % i)]
         elif form == 'ext2':
             members += [S.M('n%d' % i, sym[3]), S.M('f%d' % i, sym[1], S.EXT, 'n%d' % i),
                         S.M('g%d' % i, sym[2], S.EXT, 'n%d' % i)]
@@ -164,6 +167,11 @@ def codec_cells():
     extra = [('fixed', 'bytes', 2), ('limited', 'bytes', 2), ('dynamic', 'bytes'), ('greedy', 'bytes')]
     for sz in ('u8', 'i8', 'u16', 'i16', 'i32', 'u64', 'i64'):
         extra += [('ext', 'bytes', sz), ('ext', 'u16', sz)]
+    for t in ('u8', 'u16', 'F1', 'bytes'):
+        f = ('extsplit', t, 'u8')
+        out.append(mk_state('struct', (f,), reg))
+        out.append(mk_state('struct', (('dynamic', 'u8'), f), reg))
+        out.append(mk_state('struct', (('dynamic', 'u16'), f, ('plain', 'u32')), reg))
     for f in extra:
         out.append(mk_state('struct', (f,), reg))
         out.append(mk_state('struct', (('plain', 'u8'), f), reg))
